@@ -223,7 +223,12 @@ def work_dea_long(chunk, length=60):
     ntrans = 0
     states = set()
     for limexp, prefix, period in chunk:
-        obj = Dea(limexp=limexp)
+        if (limexp + len(prefix) + len(period)) % 2:
+            obj = Dea(limexp=limexp)
+        else:
+            # the table size set through the documented attribute before the first term (same object as Dea(limexp))
+            obj = Dea(limexp=3)
+            obj.limexp = limexp
         terms, syms = [], []
         last = None
         for k in range(length):
